@@ -53,8 +53,7 @@ def single_use_schemas():
             if pos == "mapkey" and p == "bool":
                 ft = "map[bool, uint8]"
             out.append("struct S { %s f; }\n" % ft)
-            if pos not in ("arr2", "maparr"):      # a container directly inside a container in a message: the known finding
-                out.append("message M { 1 -> %s f; }\n" % ft)
+            out.append("message M { 1 -> %s f; }\n" % ft)
             out.append("union U { 2 -> struct B { %s f; } }\n" % ft)
     for b in wiregen.ENUM_BASES:
         for ft in ("E", "E[]", "map[string, E]"):
